@@ -376,7 +376,7 @@ pub fn in_wide_domain(op: &OpKind, operands: &[&T], lo: f64, hi: f64, exp_max: f
     match op {
         Div => absrng(operands[1], lo, hi),
         Recip => absrng(operands[0], lo, hi),
-        Ln => rng(operands[0], lo, hi),
+        Ln | CostCe => rng(operands[0], lo, hi),
         Exp | Softmax | Sigmoid | ActSoftmax | ActSigmoid => operands[0].vals.iter().all(|x| x.v >= -exp_max && x.v <= exp_max),
         Powf(e) => {
             if *e == e.trunc() && *e >= 1.0 {
@@ -398,7 +398,7 @@ pub fn in_domain(op: &OpKind, operands: &[&T]) -> bool {
     match op {
         Div => absrng(operands[1], 0.25, 1e4),
         Recip => absrng(operands[0], 0.25, 1e4),
-        Ln => rng(operands[0], 0.25, 1e4),
+        Ln | CostCe => rng(operands[0], 0.25, 1e4),
         Exp | Softmax | Sigmoid | ActSoftmax | ActSigmoid => rng(operands[0], -3.0, 3.0),
         Powf(e) => {
             if *e == e.trunc() && *e >= 1.0 {
